@@ -409,14 +409,72 @@ fn mesh_sampling(rng: &mut Rng) {
     emit_oracle_only("sample.mesh", &Tok::new(), &Tok::new(), &v);
 }
 
+/// the farthest pair is the true diameter for EVERY convex polygon and every start vertex: small irregular
+/// polygons (from each vertex the distances to the others need not rise to a single peak), elongated and
+/// sheared shapes, every cyclic rotation of the vertex list
+fn diameters(rng: &mut Rng) {
+    let mut v = Verdict::new();
+    for _ in 0..6 {
+        let k = rng.int(5, 14) as usize;
+        let (sx, sy, sh) = (rng.range(1.0, 6.0), rng.range(0.5, 3.0), rng.range(-1.5, 1.5));
+        let mut pts: Vec<Point2> = (0..k).map(|_| { let (a, b) = (rng.range(-1.0, 1.0), rng.range(-1.0, 1.0)); Point2::new(sx * a + sh * b, sy * b) }).collect();
+        // monotone-chain hull (counter-clockwise, no collinear points)
+        pts.sort_by(|a, b| a.x.partial_cmp(&b.x).unwrap().then(a.y.partial_cmp(&b.y).unwrap()));
+        let cr = |o: &Point2, a: &Point2, b: &Point2| (a.x - o.x) * (b.y - o.y) - (a.y - o.y) * (b.x - o.x);
+        let mut h: Vec<Point2> = Vec::new();
+        for p in pts.iter() {
+            while h.len() >= 2 && cr(&h[h.len() - 2], &h[h.len() - 1], p) <= 1e-9 {
+                h.pop();
+            }
+            h.push(*p);
+        }
+        let lower = h.len() + 1;
+        for p in pts.iter().rev().skip(1) {
+            while h.len() >= lower && cr(&h[h.len() - 2], &h[h.len() - 1], p) <= 1e-9 {
+                h.pop();
+            }
+            h.push(*p);
+        }
+        h.pop();
+        if h.len() < 3 {
+            continue;
+        }
+        let mut best = 0.0f64;
+        for a in &h {
+            for b in &h {
+                best = best.max((a - b).norm());
+            }
+        }
+        for r in 0..h.len() {
+            let mut rot = h.clone();
+            rot.rotate_left(r);
+            let Some(poly) = parry2d_f64::shape::ConvexPolygon::from_convex_polyline(rot.clone()) else { continue };
+            match guarded(|| farthest_pair_indices(&poly)) {
+                Err(e) => v.require(false, "hull.farthest_pair_panics", || e.clone()),
+                Ok((fa, fb)) => {
+                    let np = poly.points().len();
+                    v.require(fa < np && fb < np, "hull.farthest_pair_indices_in_range", || format!("{fa} {fb} of {np}"));
+                    if fa < np && fb < np {
+                        let got = (poly.points()[fa] - poly.points()[fb]).norm();
+                        v.require((got - best).abs() <= 1e-12 * (1.0 + best), "hull.farthest_pair_is_diameter_for_every_start_vertex",
+                            || format!("polygon {:?}: pair ({fa}, {fb}) has length {got}, the diameter is {best}", poly.points().iter().map(|p| (p.x, p.y)).collect::<Vec<_>>()));
+                    }
+                }
+            }
+        }
+    }
+    emit_oracle_only("hull.diameters", &Tok::new(), &Tok::new(), &v);
+}
+
 pub fn run(rng: &mut Rng, n: usize) {
     for k in 0..n {
         for _ in 0..4 {
-            search(rng);
+            case("search.case", "c15.library_call_panics", || search(rng));
         }
-        hulls(rng);
+        case("search.case", "c15.library_call_panics", || hulls(rng));
+        case("search.case", "c15.library_call_panics", || diameters(rng));
         if k % 4 == 0 {
-            mesh_sampling(rng);
+            case("search.case", "c15.library_call_panics", || mesh_sampling(rng));
         }
     }
 }
